@@ -71,6 +71,26 @@ Tric(n) == [i \in I6 |-> [j \in I6 |->
                  h == (n * n * 5 + n * (7 * lo + 13 * hi) + 11 * lo * hi + 3 * lo + 17 * hi * hi + n * lo * hi) % 211
              IN Q(TricVals[(h % 6) + 1])]]
 
+\* stiffness matrices of the crystal symmetry classes IN THEIR STANDARD FRAMES (integers; upper triangle by rows).
+\* Their couplings are tied by the class relations (trigonal C14 = -C24 = C56, tetragonal C16 = -C26, ...), so that
+\* both contractions C_ijkk and C_ikjk are DIAGONAL although the tensor is not orthotropic: members 1-4 have couplings
+\* that cancel in every contraction.  Member 10 is a triclinic matrix with the same cancellation built in by hand.
+SymUp6(u) == [i \in I6 |-> [j \in I6 |-> LET p == Min2(i, j) r == Max2(i, j) IN Q(u[p][r - p + 1])]]
+ClassMats == <<
+  SymUp6(<< <<87, 7, 12, -18, 0, 0>>, <<87, 12, 18, 0, 0>>, <<106, 0, 0, 0>>, <<58, 0, 0>>, <<58, -18>>, <<40>> >>),      \* trigonal, 6 constants (quartz)
+  SymUp6(<< <<87, 7, 12, -18, 5, 0>>, <<87, 12, 18, -5, 0>>, <<106, 0, 0, 0>>, <<58, 0, -5>>, <<58, -18>>, <<40>> >>),    \* trigonal, 7 constants
+  SymUp6(<< <<20, 5, 4, 0, 0, 3>>, <<20, 4, 0, 0, -3>>, <<15, 0, 0, 0>>, <<6, 0, 0>>, <<6, 0>>, <<7>> >>),                \* tetragonal, 7 constants
+  SymUp6(<< <<9, 2, 3, 1, -2, 4>>, <<8, 1, -1, 2, -4>>, <<7, 0, 0, 0>>, <<3, 0, 2>>, <<4, 1>>, <<5>> >>),                \* triclinic, cancelling couplings
+  SymUp6(<< <<20, 5, 4, 0, 0, 0>>, <<20, 4, 0, 0, 0>>, <<15, 0, 0, 0>>, <<6, 0, 0>>, <<6, 0>>, <<7>> >>),                 \* tetragonal, 6 constants
+  SymUp6(<< <<20, 6, 4, 0, 0, 0>>, <<20, 4, 0, 0, 0>>, <<15, 0, 0, 0>>, <<6, 0, 0>>, <<6, 0>>, <<7>> >>),                 \* hexagonal (C66 = (C11 - C12) / 2)
+  SymUp6(<< <<17, 6, 6, 0, 0, 0>>, <<17, 6, 0, 0, 0>>, <<17, 0, 0, 0>>, <<4, 0, 0>>, <<4, 0>>, <<4>> >>),                 \* cubic
+  SymUp6(<< <<32, 7, 7, 0, 0, 0>>, <<20, 8, 0, 0, 0>>, <<23, 0, 0, 0>>, <<6, 0, 0>>, <<8, 0>>, <<8>> >>),                 \* orthorhombic
+  SymUp6(<< <<32, 7, 7, 0, 0, 2>>, <<20, 8, 0, 0, -1>>, <<23, 0, 0, 3>>, <<6, 1, 0>>, <<8, 0>>, <<8>> >>),                \* monoclinic (unique axis z)
+  SymUp6(<< <<12, 4, 4, 0, 0, 0>>, <<12, 4, 0, 0, 0>>, <<12, 0, 0, 0>>, <<4, 0, 0>>, <<4, 0>>, <<4>> >>) >>               \* isotropic
+NClass == Len(ClassMats)
+\* the triclinic family and, from 101 on, the symmetry-class family
+TricX(n) == IF n > 100 THEN ClassMats[n - 100] ELSE Tric(n)
+
 \* ------------------------------------------------------------------ 2. the 21-vector (B&C 2004, eq. 2.2)
 \* X = (C11, C22, C33, r2 C23, r2 C13, r2 C12, 2C44, 2C55, 2C66, 2C14, 2C25, 2C36,
 \*      2C34, 2C15, 2C26, 2C24, 2C35, 2C16, 2r2 C56, 2r2 C46, 2r2 C45),  r2 = sqrt 2
